@@ -12,17 +12,17 @@ import (
 type Form int
 
 const (
-	FRawQ     Form = iota // "… ? …", args
-	FRawLit               // "… literal …"
-	FNamed                // "… @name …", map or sql.Named args
-	FMap                  // map[string]interface{}
-	FStruct               // model struct value / pointer (non-zero fields)
-	FClause               // clause.Expression tree
-	FGroup                // db.Where(db.Where(A).Or(B)) grouped builder
-	FPKSlice              // []int: primary key IN
-	FPKScalar             // inline only: Find(&x, 3)
-	FEmptyStr             // "" (no condition)
-	FEmptySlice           // []int{} (no condition)
+	FRawQ       Form = iota // "… ? …", args
+	FRawLit                 // "… literal …"
+	FNamed                  // "… @name …", map or sql.Named args
+	FMap                    // map[string]interface{}
+	FStruct                 // model struct value / pointer (non-zero fields)
+	FClause                 // clause.Expression tree
+	FGroup                  // db.Where(db.Where(A).Or(B)) grouped builder
+	FPKSlice                // []int: primary key IN
+	FPKScalar               // inline only: Find(&x, 3)
+	FEmptyStr               // "" (no condition)
+	FEmptySlice             // []int{} (no condition)
 )
 
 var formNames = map[Form]string{
